@@ -104,6 +104,34 @@ def run(tier):
                 sc = delta.Scenario(cid, wd, B, T, sources=[c[1] for c in combo], rounds=0, final=False,
                                     name="B%d target %s, sources %s" % (bi, tn, "+".join(c[0] for c in combo)))
                 sc.write_files(); scs.append(sc)
+        # state carried on the SOURCE context: its per-chunk marks were set by earlier calls (a checksum-only match against
+        # another file, a validation before the file changed, an earlier copy) and say nothing about the bytes it holds now -
+        # a chunk is used only if the source's bytes hash to the checksum at the time of the copy
+        sd = dict(srcs); good = sd["good"]
+        for dn in ("corrupt-all", "corrupt-chunk2", "truncated"):
+            if dn not in sd:
+                continue
+            for how in ("matched-first", "validated-then-damaged", "copied-then-damaged"):
+                for (tn, T) in targets[:2]:
+                    cid = "c%d" % len(scs)
+                    sc = delta.Scenario(cid, wd, B, T, sources=[sd[dn]] if how != "copied-then-damaged" else [good, sd[dn]], rounds=0, final=False,
+                                        name="B%d target %s, source %s whose context was %s" % (bi, tn, dn, how))
+                    gp = os.path.join(wd, cid + ".good")
+                    dmg = ["open 8 {p} rw", "ftruncate 8 0", "pwrite 8 0 file:%s" % (os.path.join(wd, cid + ".dmg")), "closefd 8"]
+                    if how == "matched-first":
+                        sc.aux[gp] = good
+                        sc.src_prep[0] = ["ctx 9", "open 9 %s r" % gp, "init_read 9 9", "find_matching 9 {c}", "free 9", "closefd 9"]
+                    elif how == "validated-then-damaged":
+                        sc.src_initial[0] = good; sc.aux[os.path.join(wd, cid + ".dmg")] = sd[dn]
+                        sc.src_prep[0] = ["validate_checksums {c}"] + dmg
+                    else:
+                        # one source context used for two copies: into a scratch target first (intact), then, after its file
+                        # was damaged, into the real one.  Expressed with two source slots on the same path is not possible;
+                        # instead the scratch copy is the preparation
+                        sc.sources = [sd[dn]]; sc.spaths = sc.spaths[:1]
+                        sc.src_initial[0] = good; sc.aux[os.path.join(wd, cid + ".dmg")] = sd[dn]; sc.aux[os.path.join(wd, cid + ".scratch")] = B[:hB.hdr_total]
+                        sc.src_prep[0] = ["ctx 10", "open 10 %s rw" % os.path.join(wd, cid + ".scratch"), "init_read 10 10", "copy_chunks {c} 10", "free 10", "closefd 10"] + dmg
+                    sc.write_files(); scs.append(sc)
     # crafted target index: a 32-byte checksum whose first 16 bytes are the (16-byte) checksum of a same-sized chunk
     # of a source that uses the shorter chunk hash type - a prefix is not a match
     for comp in (0, 2):
